@@ -1241,13 +1241,21 @@ fn inject_fault(rng: &mut Rng, c: &mut Case) {
             let i = sh.items.iter().position(|f| matches!(f.it, It::Raw { id: 0x94, .. })).unwrap();
             if let It::Raw { payload, .. } = &mut sh.items[i].it {
                 let mut d = vec![];
-                let v: [u32; 4] = if rng.chance(1, 2) { [5, 2, 0, 3] } else { [0, 3, 9, 1] };
+                let full = rng.chance(1, 3);
+                let v: [u32; 4] = if full {
+                    // the whole u32 square: (2^32)^2 cells do not fit the u64 of Dimensions::len
+                    [0, u32::MAX, 0, u32::MAX]
+                } else if rng.chance(1, 2) {
+                    [5, 2, 0, 3]
+                } else {
+                    [0, 3, 9, 1]
+                };
                 for x in v {
                     d.extend_from_slice(&x.to_le_bytes());
                 }
                 *payload = d;
+                c.fault = if full { "dims_full".into() } else { "dims_reversed".into() };
             }
-            c.fault = "dims_reversed".into();
         }
         7 => {
             let i = *rng.pick(&rows);
@@ -1554,6 +1562,11 @@ fn corpus() -> Vec<Case> {
     let mut c = base_case(vec![]);
     c.sheets[0].items[1] = Fr { it: It::Raw { id: 0x94, payload: vec![0; 15] }, wide: false, lenw: 0 };
     c.fault = "wsdim_short".into();
+    v.push(c);
+    // BrtWsDim spanning the whole u32 square: Dimensions::len multiplied 2^32 by 2^32 in u64
+    let mut c = base_case(vec![row(0), cell(0, 0, Kind::Bool(1), false)]);
+    c.sheets[0].items[1] = Fr { it: It::Raw { id: 0x94, payload: vec![0, 0, 0, 0, 0xFF, 0xFF, 0xFF, 0xFF, 0, 0, 0, 0, 0xFF, 0xFF, 0xFF, 0xFF] }, wide: false, lenw: 0 };
+    c.fault = "dims_full".into();
     v.push(c);
     // formula records cut inside their formula (former panic sites of next_formula)
     for (fault, kind, tail) in [
